@@ -41,6 +41,11 @@ func main() {
 		codegenmodel.PluginMain()
 		return
 	}
+	if len(os.Args) >= 2 && os.Args[1] == "protoc-standin" {
+		// invoked by `buf generate` in the place of protoc for a protoc_builtin plugin (C17, retention scenario)
+		codegenmodel.ProtocStandinMain()
+		return
+	}
 	if len(os.Args) < 4 {
 		fmt.Fprintln(os.Stderr, "usage: vh <sub-command> <input.json> <output.json>; sub-commands:", reg.Names())
 		os.Exit(2)
